@@ -349,15 +349,30 @@ theorem degenerate_sound_pointArcCoincident (v : Nat → ℝ) (a : ArcD) (p : Pt
   · simp only [Constraint.jacobianV, distJacRow, hypot_real, ptDist]
     split <;> split <;> simp_all
 
-/-- `CircleRadius` and `CircleTangentToCircle` have no guard at all: a zero (or negative) radius, or
-concentric circles, never produce a degeneracy notice from these kinds. -/
-theorem circle_kinds_unguarded (v : Nat → ℝ) (c c' : Circ) (r : ℝ) :
+/-- `CircleRadius` has no guard at all: a zero (or negative) radius never produces a degeneracy
+notice from this kind. -/
+theorem circle_kinds_unguarded (v : Nat → ℝ) (c : Circ) (r : ℝ) :
     ((Constraint.circleRadius c r).residualV v).degenerate = false ∧
-    ((Constraint.circleRadius c r).jacobianV v).degenerate = false ∧
+    ((Constraint.circleRadius c r).jacobianV v).degenerate = false :=
+  ⟨(never_degenerate_kinds _ rfl v).1, (never_degenerate_kinds _ rfl v).2⟩
+
+/-- `CircleTangentToCircle` (after the fix for finding F22): the residual never raises the flag; the
+Jacobian raises it exactly when the two centres are closer than `EPSILON` (the derivative with
+respect to the centres is the unit vector between them, undefined for concentric circles).  A zero
+or negative radius is still not guarded. -/
+theorem degenerate_sound_circleTangentToCircle (v : Nat → ℝ) (c c' : Circ) :
     ((Constraint.circleTangentToCircle c c' : Constraint ℝ).residualV v).degenerate = false ∧
-    ((Constraint.circleTangentToCircle c c' : Constraint ℝ).jacobianV v).degenerate = false :=
-  ⟨(never_degenerate_kinds _ rfl v).1, (never_degenerate_kinds _ rfl v).2,
-   (never_degenerate_kinds _ rfl v).1, (never_degenerate_kinds _ rfl v).2⟩
+    (((Constraint.circleTangentToCircle c c' : Constraint ℝ).jacobianV v).degenerate = true ↔
+      Real.sqrt ((v c.center.x - v c'.center.x) * (v c.center.x - v c'.center.x)
+        + (v c.center.y - v c'.center.y) * (v c.center.y - v c'.center.y)) < (EPS : ℝ)) := by
+  constructor
+  · simp only [Constraint.residualV]
+    split <;> rfl
+  · simp only [Constraint.jacobianV, sqrt_real, sqr]
+    by_cases h : Real.sqrt ((v c.center.x - v c'.center.x) * (v c.center.x - v c'.center.x)
+        + (v c.center.y - v c'.center.y) * (v c.center.y - v c'.center.y)) < (EPS : ℝ)
+    · simp [h]
+    · simp [h]
 
 /-! ### 6. `neverDegenerate` is exactly the set of unguarded kinds -/
 
